@@ -242,3 +242,18 @@ func ReturnsAvoiding(fn *ssa.Function, avoid func(ssa.Instruction) bool) []*ssa.
 	})
 	return out
 }
+
+// PathConds returns the branch conditions taken along a block path.
+func PathConds(path []*ssa.BasicBlock) []Guard {
+	var out []Guard
+	for i := 0; i+1 < len(path); i++ {
+		b := path[i]
+		if len(b.Instrs) == 0 {
+			continue
+		}
+		if iff, ok := b.Instrs[len(b.Instrs)-1].(*ssa.If); ok && len(b.Succs) == 2 && b.Succs[0] != b.Succs[1] {
+			out = append(out, normGuard(Guard{iff.Cond, b.Succs[0] == path[i+1], b}))
+		}
+	}
+	return out
+}
